@@ -142,6 +142,16 @@ Definition is_finish (r : region) (s : step) : bool :=
   | SplitRegion from_rng => negb (rng r =? from_rng)
   end.
 
+(* Pending peers (a peer that has not caught up with the snapshot yet, reported in the heartbeat): only IsFinish of the four
+   add steps looks at them - the step is finished once its peer is there AND no longer pending.  pend = ids of the
+   pending peers.  (CheckSafety, ConfVerChanged and the command sent do not take them as input.) *)
+Definition is_finish_p (pend : list Z) (r : region) (s : step) : bool :=
+  is_finish r s &&
+  match s with
+  | AddPeer _ id | AddLearner _ id | AddLightPeer _ id | AddLightLearner _ id => negb (existsb (Z.eqb id) pend)
+  | _ => true
+  end.
+
 (* CheckSafety: None = nil error, Some reason = the error *)
 Local Open Scope string_scope.
 Local Open Scope list_scope.
